@@ -211,8 +211,13 @@ func implHostPanic(j int, inTry bool, vars, prog string) string {
 //   2: recovers the halt and returns normally           -> the script goes on, a later throw is caught as usual
 //   3: lets it pass                                     -> it leaves the outer Run
 // and `closed`: a closed Interrupt channel (the README closes it when its watchdog is done) is harmless.
+type stop struct{ n int }
+
+// the halt value implements error, like the README's `var halt = errors.New(...)`: code that sorts panics by
+// "is it an error value" must not take it for something to convert (seed N06)
+func (stop) Error() string { return "stop" }
+
 func implSwallow(variant string) string {
-	type stop struct{ n int }
 	vm := otto.New()
 	vm.Interrupt = make(chan func(), 1)
 	vm.Set("arm", func(call otto.FunctionCall) otto.Value {
@@ -241,6 +246,21 @@ func implSwallow(variant string) string {
 		v, err := vm.Run(`var n = 0; for (var i = 0; i < 5; i++) { try { n += i; if (i == 3) throw i } catch (e) { n += 100 } } n`)
 		return strings.ReplaceAll(fmt.Sprint("returned:", v, ",", err), " ", "_") + ";" + restTok(vm) + ";" + followTok(vm)
 	}
+	src := `var r = "none"; try { host(); r = "returned" } catch (e) { r = "caught:" + e } try { throw 1 } catch (e) { r += ";then:" + e } r`
+	switch variant {
+	case "tostring":
+		// the halt arrives while Run converts an uncaught thrown object to its error text (catchPanic runs
+		// the object's toString after the script proper has unwound)
+		src = `throw {toString: function(){ arm(); for(;;){} }}`
+	case "tostring-call":
+		// the same inside Value.Call made by a host function: the halt must not be flattened into the
+		// error that Call returns
+		vm.Set("host", func(call otto.FunctionCall) otto.Value {
+			call.Argument(0).Call(otto.UndefinedValue())
+			return otto.UndefinedValue()
+		})
+		src = `var r = "none"; try { host(function(){ throw {toString: function(){ arm(); for(;;){} }} }); r = "returned" } catch (e) { r = "caught" } r`
+	}
 	out := ""
 	func() {
 		defer func() {
@@ -252,7 +272,7 @@ func implSwallow(variant string) string {
 				}
 			}
 		}()
-		v, err := vm.Run(`var r = "none"; try { host(); r = "returned" } catch (e) { r = "caught:" + e } try { throw 1 } catch (e) { r += ";then:" + e } r`)
+		v, err := vm.Run(src)
 		out = strings.ReplaceAll(fmt.Sprint("returned:", v, ",", err), " ", "_")
 	}()
 	vm.Interrupt = nil
@@ -733,7 +753,7 @@ func genC18(c *h.Ctx) {
 	for v := 0; v <= 4; v++ {
 		c.Add(fmt.Sprintf("icopy %d", v), "icopy")
 	}
-	for _, v := range []string{"0", "1", "2", "3", "closed"} {
+	for _, v := range []string{"0", "1", "2", "3", "closed", "tostring", "tostring-call"} {
 		c.Add("swallow "+v, "swallow")
 	}
 	maxL := c.N(12, 64)
